@@ -128,7 +128,8 @@ function genVersion (rng, fi, vi, kind, o) {
     if (o.omap === 'inline') {
       lines.push('//# sourceMappingURL=data:application/json;base64,' + Buffer.from(json).toString('base64'))
     } else {
-      v.omap.url = `f${fi}v${vi}.js.map`
+      // one map name per file: every version (re-build) of the file overwrites the same .map
+      v.omap.url = `f${fi}.js.map`
       v.omap.mapPath = path.join(path.dirname(o.file), v.omap.url)
       lines.push('//# sourceMappingURL=' + v.omap.url)
     }
